@@ -11,3 +11,4 @@ pub mod r10;
 pub mod r6;
 pub mod r7;
 pub mod r8f;
+pub mod r8p;
